@@ -30,6 +30,8 @@ func init() {
 func runC03(p *Program, r *Report) {
 	c03loop(p, r, "C03.loop")
 	c03ctl(p, r, "C03.ctl")
+	c03fail(p, r, "C03.fail")
+	c04eom(p, r, "C03.eom")
 	c03seq(p, r, "C03.seq")
 	c03hdr(p, r, "C03.hdr")
 	c03closepayload(p, r, "C03.closepayload")
@@ -147,6 +149,66 @@ func c03loop(p *Program, r *Report, rule string) {
 			}
 			return true, ""
 		})
+}
+
+// c03fail: a rejected frame fails the connection (RFC 6455 §7.1.7): the header of the frame was consumed, its payload
+// was not, so nothing that follows on the transport may be parsed as frames.
+func c03fail(p *Program, r *Report, rule string) {
+	if fn := p.Func("Conn.writeError"); fn != nil {
+		p.forAllPaths(r, rule+".close", fn, "close frame, then the transport", Opts{},
+			"writeError writes the close frame (writeClose(code, err.Error())) and then closes the transport on every path: after a failure close the next read cannot parse the rejected frame's payload as frames", func(pa *Path) (bool, string) {
+				wc := eventIndex(pa, 0, func(e *Event) bool { return isCall(e, "Conn.writeClose", "Conn.writeCloseCtx") })
+				ct := eventIndex(pa, 0, func(e *Event) bool { return isCall(e, "Conn.closeTransport", "Conn.close") })
+				if wc < 0 {
+					return false, "no close frame"
+				}
+				if ct < 0 || ct < wc {
+					return false, "the transport is not closed after the close frame: the connection stays readable"
+				}
+				return true, ""
+			})
+	}
+	if fn := p.Func("Conn.readLoop"); fn != nil {
+		p.forAllPaths(r, rule+".reject", fn, "every rejection of a received header fails the connection", Opts{Unroll: 1, Inline: p.inlineSet("Conn.readRSV1Illegal", "Conn.flate")},
+			"after readFrameHeader succeeded, readLoop returns an error it created itself (reserved bits, wrong masking for the role, unknown opcode) only after writeError: the rejected frame's payload is still unread", func(pa *Path) (bool, string) {
+				if pa.End != "return" || retErr(pa) != "nonnil" {
+					return true, ""
+				}
+				ok, known := decidedLike(pa, "call:Conn.readFrameHeader@@#1 == nil")
+				if !known || !ok {
+					return true, "" // the header read failed: Conn.readFrameHeader closes the transport (C03.fail.header)
+				}
+				// errors passed on from handleControl are handleControl's business (C03.ctl)
+				if len(pa.Calls("Conn.handleControl")) > 0 {
+					return true, ""
+				}
+				if len(pa.Calls("Conn.writeError")) == 0 && len(pa.Calls("Conn.closeTransport")) == 0 && len(pa.Calls("Conn.close")) == 0 {
+					return false, "a frame is rejected (" + pa.Ret[1].Key() + ") without failing the connection"
+				}
+				return true, ""
+			})
+	}
+	if fn := p.Func("Conn.readFrameHeader"); fn != nil {
+		p.forAllPaths(r, rule+".header", fn, "an unreadable or invalid header closes the transport", Opts{},
+			"when readFrameHeader fails for a reason other than the connection being closed or the context ending (transport error, length with the top bit set), Conn.readFrameHeader closes the transport before returning the error", func(pa *Path) (bool, string) {
+				if pa.End != "return" || retErr(pa) != "nonnil" {
+					return true, ""
+				}
+				ok, known := decidedLike(pa, "call:readFrameHeader@@#1 == nil")
+				if !known || ok {
+					return true, ""
+				}
+				// which case of the classifying select was taken: the default one passes the error on
+				for _, e := range pa.Events {
+					if e.Kind == "select" && !e.Blocking && e.Case == -1 {
+						if len(pa.Calls("Conn.closeTransport")) == 0 && len(pa.Calls("Conn.close")) == 0 {
+							return false, "the header error is passed on with the transport left open"
+						}
+					}
+				}
+				return true, ""
+			})
+	}
 }
 
 func c03ctl(p *Program, r *Report, rule string) {
